@@ -376,17 +376,25 @@ def find_check_cache(context):
         raise AbortConfigure()
 
 
+def _make_depfile_target(outputs):
+    # When the regenerate rule has several outputs, the Make backend attaches
+    # the recipe (and so the dependencies) to a stamp file; see
+    # `make.multitarget_rule`.
+    return outputs[0].addext('.stamp') if len(outputs) > 1 else outputs[0]
+
+
 @make.post_rules_hook
 def make_find_dirs(build_inputs, buildfile, env):
+    regen_files = regenerate.RegenerateFiles.make(build_inputs, env)
     if build_inputs['find_dirs']:
-        write_depfile(env, Path(depfile_name), make.filepath,
+        write_depfile(env, Path(depfile_name),
+                      _make_depfile_target(regen_files.outputs),
                       build_inputs['find_dirs'], makeify=True)
         buildfile.include(depfile_name)
 
-    FindCacheFile(
-        regenerate.RegenerateFiles.make(build_inputs, env),
-        build_inputs['find_cache']
-    ).save(env.builddir.string())
+    FindCacheFile(regen_files, build_inputs['find_cache']).save(
+        env.builddir.string()
+    )
 
 
 @ninja.post_rules_hook
